@@ -4,6 +4,7 @@ import Dhlldv.Spec.Fracs
 import Dhlldv.Lemmas.FracsSorted
 import Dhlldv.Lemmas.FracsRange
 import Dhlldv.Lemmas.FracsMono
+import Dhlldv.Lemmas.FracsFacts
 import Mathlib.Tactic.Positivity
 import Mathlib.Tactic.FieldSimp
 import Mathlib.Tactic.Ring
@@ -166,7 +167,7 @@ theorem C12_starts_at_limit (trunc : ℝ → Nat) (lo nx : ℝ × ℝ) (rest : L
   intro dlim sk X gsd
   have hseg := skipBelow_strict dlim B hB (lo :: nx :: rest).length lo nx rest ((lo :: nx :: rest).length - 1) h hne
     (by simp only [List.length_cons]; omega)
-  obtain ⟨_, hab, hmem, _⟩ := afterSkip_facts dlim sk.1 sk.2.1 sk.2.2.1 sk.2.2.2 n B hseg
+  obtain ⟨_, hab, hmem, _, _⟩ := afterSkip_facts dlim sk.1 sk.2.1 sk.2.2.1 sk.2.2.2 n B hseg
   have hg : gsd = (afterSkip (fun k : Nat => (k : ℝ)) dlim sk.1 sk.2.1 sk.2.2.1 sk.2.2.2 n).gsd := rfl
   rw [← hg] at hab hmem
   by_cases hx : X > (0.0:ℝ)
@@ -190,7 +191,32 @@ theorem C12_given_points_are_nodes (trunc : ℝ → Nat) (lo nx : ℝ × ℝ) (r
   intro dlim sk
   have hseg := skipBelow_strict dlim B hB (lo :: nx :: rest).length lo nx rest ((lo :: nx :: rest).length - 1) h hne
     (by simp only [List.length_cons]; omega)
-  exact (afterSkip_facts dlim sk.1 sk.2.1 sk.2.2.1 sk.2.2.2 n B hseg).2.2.2
+  exact (afterSkip_facts dlim sk.1 sk.2.1 sk.2.2.1 sk.2.2.2 n B hseg).2.2.2.1
+
+/-- AT LEAST THE REQUESTED NUMBER OF FRACTIONS: the discretised grading has at least n nodes (n ≥ 3; the default is 10), for every well-formed input of
+any length - the clause the rounding repair `647cf52` restored (with rounding to nearest an 8-point input gave 9) -/
+theorem C12_at_least_requested_fractions (trunc : ℝ → Nat) (lo nx : ℝ × ℝ) (rest : List (ℝ × ℝ)) (Dp nu rhol rhos : ℝ) (n : Nat) (hn : 3 ≤ n) (B : ℝ) (hB : B < 0.999)
+    (h : InputOK (framework.pseudo_dlim Dp nu rhol rhos) lo nx rest B)
+    (hne : ∀ p ∈ nx :: rest, p.2 ≠ framework.pseudo_dlim Dp nu rhol rhos) :
+    n ≤ (createFracs (fun k : Nat => (k : ℝ)) trunc (lo :: nx :: rest) Dp nu rhol rhos n).gsd.length := by
+  have hseg := skipBelow_strict (framework.pseudo_dlim Dp nu rhol rhos) B hB (lo :: nx :: rest).length lo nx rest ((lo :: nx :: rest).length - 1) h hne
+    (by simp only [List.length_cons]; omega)
+  have hz : ∀ t ∈ rest, ¬ feq t.1 (0.0 : ℝ) = true := by
+    intro t ht
+    rw [feq_iff_eq]
+    intro e
+    have hc := List.isChain_cons_cons.1 h.chain
+    have hrel : ∀ u ∈ rest, nx.1 < u.1 := by
+      have htr : List.IsChain (fun p q : ℝ × ℝ => p.1 < q.1) (nx :: rest) := List.IsChain.imp (fun _ _ hab => hab.1) hc.2
+      have hp := (List.isChain_iff_pairwise (R := fun p q : ℝ × ℝ => p.1 < q.1)).1 htr
+      exact (List.pairwise_cons.1 hp).1
+    have := hrel t ht
+    rw [e] at this
+    have : (0:ℝ) < 0.0 := by linarith [h.f0, hc.1.1]
+    norm_num at this
+  have hpl := skipBelow_pl (framework.pseudo_dlim Dp nu rhol rhos) (lo :: nx :: rest).length lo nx rest ((lo :: nx :: rest).length - 1)
+    (by simp only [List.length_cons]; omega) hz
+  exact (afterSkip_facts (framework.pseudo_dlim Dp nu rhol rhos) _ _ _ _ n B hseg).2.2.2.2 hpl hn
 
 /-! Non-vacuity: a D15/D50/D85 grading above a limit of 0.1 mm meets `InputOK` -/
 example : InputOK (1e-4 : ℝ) (0.15, 2e-4) (0.5, 4e-4) [(0.85, 8e-4)] 0.85 := by
